@@ -32,6 +32,8 @@ SHEAR = [[2, 1, 0], [0, 2, 0], [0, 0, 1]]              # lowers the symmetry of 
 SKEW = [[2, 0, 1], [0, 2, 0], [0, 1, 2]]
 ORTHOHEX = [[1, 1, 0], [-1, 1, 0], [0, 0, 1]]          # orthohexagonal cell of a hexagonal lattice
 D5 = [[5, 0, 0], [0, 5, 0], [0, 0, 5]]
+D543 = [[5, 0, 0], [0, 4, 0], [0, 0, 3]]               # too small in ONE direction only: only some members of a star alias
+D354 = [[3, 0, 0], [0, 5, 0], [0, 0, 4]]
 
 # (world, diffuser species, jump shell, supercell matrices)
 QUICK_I = [
@@ -46,7 +48,8 @@ QUICK_I = [
 QUICK_V = [
     ("fcc", 0, 1, 1, [D3, CUB2, I1, SKEW]),
     ("b2", 0, 1, 1, [D3, ROT45]),                      # binary host
-    ("sc", 0, 1, 1, [D5, D2]),                         # D5: large enough, no warning expected
+    ("sc", 0, 1, 1, [D5, D2, D543]),                   # D5: large enough, no warning expected
+    ("hcp", 0, 2, 1, [D543, D354]),
     ("omega", 0, 1, 1, [D221, D2]),                    # vacancy sublattice with two inequivalent sites
     ("i_hex", 1, 1, 1, [D221]),                        # ternary crystal, vacancy species listed second, 2 Wyckoff positions
 ]
